@@ -4,27 +4,13 @@ from vlib.catobs import obligations
 from vlib.spec import Bits, Data, Decl, Int, Opt, Ref, Seq, Fld, Ex
 
 FN = '''
-def dflt(v: int, b: bytes) -> str:
+def dflt(v: int, b: bytes, nn: bool) -> str:
     assume(len(b) <= 2)
-    return H.h_defaults(SPEC, CLS, globals(), KEY, v, b)
+    return H.h_defaults(SPEC, CLS, globals(), KEY, v, b, nn)
 '''
 
-# declarations with user supplied defaults
-UD_Inner = Decl("UDInner", [("x", Int(1, default=7)), ("y", Data(2, default=b"hi"))])
-USER = {
-    "u_defaults": Decl("UDefaults", [("a", Int(2, default=513)), ("b", Bits(4, default=9)), ("c", Bits(4)),
-                                     ("d", Data(3, default=b"abc")), ("e", Data(until=b"\x00", default=b"zz")),
-                                     ("r", Ref(UD_Inner)), ("s", Seq(Int(1), count=2, default="[1, 2]")),
-                                     ("o", Opt(Int(1), Ex("a == 1"), default="5"))]),
-}
-
-
 def build(tier, seed):
-    from vlib import catalogue
-    for k, d in USER.items():
-        if k not in CAT:
-            catalogue.add(k, d, 4, 5, "U")
-    entries = [e for e in select(tier) if "P" not in e["tags"] and "refsel" not in e["tags"]]
+    entries = [e for e in select(tier) if "P" not in e["tags"] and "refsel" not in e["tags"]] + select(tier, families=("U",))
     if tier == "quick":
         entries = [e for e in entries if not ("marker" in e["tags"] and "sbl" in e["tags"])]
     obs = []
